@@ -10,6 +10,25 @@ pub fn is_store_op(name: &str) -> bool {
     matches!(name, "provision2" | "store_remove" | "store_copy" | "dump" | "migrate" | "busy" | "logger")
 }
 
+/// the known transient: the first connections of a pool race to put a freshly created (or DELETE-journal) file into WAL mode
+fn locked(e: &aries_askar::Error) -> bool { e.to_string().contains("database is locked") }
+fn locked_text(t: &str) -> bool { t.contains("database is locked") }
+const RETRIES: u32 = 6;
+
+/// run a twin set-up step; a "database is locked" failure is retried (after `reset`, e.g. removing the half-made target)
+fn retry_locked<T>(mut f: impl FnMut() -> Result<T, aries_askar::Error>, mut reset: impl FnMut()) -> Result<T, aries_askar::Error> {
+    let mut k = 0;
+    loop {
+        match f() {
+            Err(e) if locked(&e) && k < RETRIES => { k += 1; reset(); std::thread::sleep(Duration::from_millis(25 * k as u64)); }
+            r => return r,
+        }
+    }
+}
+
+/// path of a `sqlite://` URI (None for in-memory and other schemes)
+fn db_path(uri: &str) -> Option<String> { uri.strip_prefix("sqlite://").map(|p| p.split('?').next().unwrap_or(p).to_string()).filter(|p| p.starts_with('/')) }
+
 fn rm_db(p: &str) { for suffix in ["", "-wal", "-shm", "-journal"] { std::fs::remove_file(format!("{}{}", p, suffix)).ok(); } }
 
 /// a fresh pair of database paths (store, twin) for op `i`
@@ -167,16 +186,34 @@ pub fn step_store(run: &mut Run, i: usize, op: &Value, last: &mut [usize; 3]) ->
             let (uri, method, pass, profile) = (cstr_arg(&uri_v), cstr_arg(&op["method"]), cstr_arg(&op["pass"]), cstr_arg(&op["profile"]));
             let recreate = op["recreate"].as_bool().unwrap_or(false);
             let cbf: CbHandle = if cb_given { Some(cb_handle) } else { None };
-            let ret = unsafe { if copy { askar_store_copy(H(h), uri.ptr, method.ptr, pass.ptr, recreate as i8, cbf, id) } else { askar_store_provision(uri.ptr, method.ptr, pass.ptr, profile.ptr, recreate as i8, cbf, id) } };
             let parsed = parse_method(&op["method"]);
             let malformed = !cb_given || uri_v.is_null() || parsed.is_none();
-            let (ret, cb) = run.finish(i, op, ret, id, cb_given);
+            // a target this op creates itself may be wiped between attempts; an existing one is left alone
+            let fresh = matches!(op[if copy { "target" } else { "uri" }].as_str(), Some("FILE") | Some("FILE?busy"));
+            let _ = id;
+            let mut attempt = 0;
+            let (ret, cb) = loop {
+                let id = new_cb_id();
+                let ret = unsafe { if copy { askar_store_copy(H(h), uri.ptr, method.ptr, pass.ptr, recreate as i8, cbf, id) } else { askar_store_provision(uri.ptr, method.ptr, pass.ptr, profile.ptr, recreate as i8, cbf, id) } };
+                let (ret, cb) = run.finish(i, op, ret, id, cb_given);
+                // the known transient (a pool racing to put a new file into WAL mode) is set-up noise, not the judged outcome: try again
+                let transient = matches!(&cb, Some(v) if v.code() == 1) && locked_text(&current_error());
+                if transient && attempt < RETRIES {
+                    attempt += 1;
+                    run.feat("retry:ffi:database-is-locked");
+                    if fresh || recreate { if let Some(p) = uri_v.as_str().and_then(db_path) { rm_db(&p); } }
+                    std::thread::sleep(Duration::from_millis(25 * attempt as u64));
+                    continue;
+                }
+                break (ret, cb);
+            };
             if malformed && ret == 0 { run.fail(i, op, format!("{}:malformed-args->ret:Success", name), json!({})); }
             if !malformed && ret != 0 { run.fail(i, op, format!("{}:valid-args->ret:{}", name, code_name(ret)), json!({})); }
             let twin_res: Option<Result<Store, aries_askar::Error>> = if ret == 0 && !malformed && run.twin_ok && live {
                 let m = parsed.clone().unwrap();
-                if copy { run.stores.get(&h).and_then(|s| s.twin.as_ref()).map(|st| block_on(st.copy_to(&twin_s, m, pass_of(&op["pass"]), recreate))) }
-                else { Some(block_on(Store::provision(&twin_s, m, pass_of(&op["pass"]), opt_string(&op["profile"]), recreate))) }
+                let reset = || { if fresh || recreate { if let Some(p) = db_path(&twin_s) { rm_db(&p); } } };
+                if copy { run.stores.get(&h).and_then(|s| s.twin.as_ref()).map(|st| retry_locked(|| block_on(st.copy_to(&twin_s, m.clone(), pass_of(&op["pass"]), recreate)), reset)) }
+                else { Some(retry_locked(|| block_on(Store::provision(&twin_s, m.clone(), pass_of(&op["pass"]), opt_string(&op["profile"]), recreate)), reset)) }
             } else { None };
             run.tw.push((i, match &twin_res { Some(Ok(_)) => json!("ok"), Some(Err(e)) => json!(kind_name(e)), None => Value::Null }));
             match cb {
@@ -253,14 +290,26 @@ pub fn step_store(run: &mut Run, i: usize, op: &Value, last: &mut [usize; 3]) ->
             };
             let uri_v = if op["src"].is_null() { Value::Null } else { json!(path) };
             let (uri, wn, wk, kdf) = (cstr_arg(&uri_v), cstr_arg(&op["name"]), cstr_arg(&op["key"]), cstr_arg(&op["kdf"]));
-            let ret = unsafe { askar_migrate_indy_sdk(uri.ptr, wn.ptr, wk.ptr, kdf.ptr, if cb_given { Some(cb_unit) } else { None }, id) };
             let malformed = !cb_given || uri_v.is_null() || op["name"].is_null() || op["key"].is_null() || op["kdf"].is_null();
-            let (ret, cb) = run.finish(i, op, ret, id, cb_given);
+            let from_fixture = op["src"].as_str() == Some("indy");
+            // the migration ends by re-opening the file through a pool, which switches it to WAL mode: the known "database is
+            // locked" transient can hit there.  It is set-up noise: start again from a fresh copy of the fixture.
+            let _ = id;
+            let mut attempt = 0;
+            let (ret, cb) = loop {
+                let id = new_cb_id();
+                let ret = unsafe { askar_migrate_indy_sdk(uri.ptr, wn.ptr, wk.ptr, kdf.ptr, if cb_given { Some(cb_unit) } else { None }, id) };
+                let (ret, cb) = run.finish(i, op, ret, id, cb_given);
+                let transient = from_fixture && matches!(&cb, Some(v) if v.code() == 1) && locked_text(&current_error());
+                if transient && attempt < RETRIES { attempt += 1; run.feat("retry:ffi:database-is-locked"); rm_db(&path); std::fs::copy(FIXTURE, &path).expect("indy fixture"); std::thread::sleep(Duration::from_millis(25 * attempt as u64)); continue; }
+                break (ret, cb);
+            };
             if malformed && ret == 0 { run.fail(i, op, "migrate:malformed-args->ret:Success".into(), json!({})); }
             if !malformed && ret != 0 { run.fail(i, op, format!("migrate:valid-args->ret:{}", code_name(ret)), json!({})); }
             let twin_res: Option<Result<(), aries_askar::Error>> = if ret == 0 && !malformed {
                 let (n, k, l) = (op["name"].as_str().unwrap_or(""), op["key"].as_str().unwrap_or(""), op["kdf"].as_str().unwrap_or(""));
-                Some(block_on(async { askar_storage::migration::IndySdkToAriesAskarMigration::connect(&twin_path, n, k, l).await?.migrate().await }).map_err(aries_askar::Error::from))
+                let go = || block_on(async { askar_storage::migration::IndySdkToAriesAskarMigration::connect(&twin_path, n, k, l).await?.migrate().await }).map_err(aries_askar::Error::from);
+                if from_fixture { Some(retry_locked(go, || { rm_db(&twin_path); std::fs::copy(FIXTURE, &twin_path).expect("indy fixture"); })) } else { Some(go()) }
             } else { None };
             let mut rows = Value::Null;
             let got = match &cb {
@@ -272,7 +321,7 @@ pub fn step_store(run: &mut Run, i: usize, op: &Value, last: &mut [usize; 3]) ->
                     }
                     if v.code() == 0 {
                         // both files are Askar stores now, under the wallet key, holding the same records
-                        let open = |p: &str| block_on(Store::open(&format!("sqlite://{}", p), None, pass_of(&op["key"]), None));
+                        let open = |p: &str| retry_locked(|| block_on(Store::open(&format!("sqlite://{}", p), None, pass_of(&op["key"]), None)), || {});
                         match (open(&path), open(&twin_path)) {
                             (Ok(a), Ok(b)) => {
                                 match (dump_rust(&a), dump_rust(&b)) {
@@ -311,18 +360,38 @@ fn busy(run: &mut Run, i: usize, op: &Value, last: &mut [usize; 3]) -> Value {
     let (path, _) = fresh_paths(run, i, "busy");
     let uri = cstr_arg(&json!(format!("sqlite://{}?busy_timeout=250", path)));
     let (m, k) = (cstr_arg(&json!("raw")), cstr_arg(&json!(RAW_KEY)));
-    let (_, cb) = aux(run, i, op, |id| unsafe { askar_store_provision(uri.ptr, m.ptr, k.ptr, std::ptr::null(), 1, Some(cb_handle), id) });
-    let st = match cb { Some(CbVal::Handle(0, h)) => h, _ => { run.fail(i, op, "busy:setup-failed".into(), json!({})); return json!({"busy": null}); } };
+    // set-up steps are retried (fresh WAL file: the known "database is locked" transient; a loaded machine)
+    let mut st = 0;
+    for attempt in 0..=RETRIES {
+        let (_, cb) = aux(run, i, op, |id| unsafe { askar_store_provision(uri.ptr, m.ptr, k.ptr, std::ptr::null(), 1, Some(cb_handle), id) });
+        if let Some(CbVal::Handle(0, h)) = cb { st = h; break; }
+        run.feat("retry:busy-setup:provision");
+        current_error(); rm_db(&path);
+        std::thread::sleep(Duration::from_millis(25 * (attempt + 1) as u64));
+    }
+    if st == 0 { run.fail(i, op, "busy:setup-failed".into(), json!({"diag": "provision of the private file store failed 7 times"})); return json!({"busy": null}); }
     last[0] = last[0].max(st);
     let start = |run: &mut Run, txn: bool, last: &mut [usize; 3]| -> usize {
-        let (_, cb) = aux(run, i, op, |id| unsafe { askar_session_start(H(st), std::ptr::null(), txn as i8, Some(cb_handle), id) });
-        match cb { Some(CbVal::Handle(0, h)) => { last[1] = last[1].max(h); h } _ => 0 }
+        for attempt in 0..=RETRIES {
+            let (_, cb) = aux(run, i, op, |id| unsafe { askar_session_start(H(st), std::ptr::null(), txn as i8, Some(cb_handle), id) });
+            if let Some(CbVal::Handle(0, h)) = cb { last[1] = last[1].max(h); return h; }
+            run.feat("retry:busy-setup:session");
+            std::thread::sleep(Duration::from_millis(25 * (attempt + 1) as u64));
+        }
+        0
     };
     let insert = |run: &mut Run, s: usize, n: &str, len: usize| -> Code {
         let (c, nm) = (cstr_arg(&json!("c")), cstr_arg(&json!(n)));
         let v = vec![7u8; len];
-        let (_, cb) = aux(run, i, op, |id| unsafe { askar_session_update(H(s), 0, c.ptr, nm.ptr, ByteBuf { len: v.len() as i64, data: v.as_ptr() }, std::ptr::null(), -1, Some(cb_unit), id) });
-        cb.map_or(-1, |v| v.code())
+        let mut code = -1;
+        for attempt in 0..=RETRIES {
+            let (_, cb) = aux(run, i, op, |id| unsafe { askar_session_update(H(s), 0, c.ptr, nm.ptr, ByteBuf { len: v.len() as i64, data: v.as_ptr() }, std::ptr::null(), -1, Some(cb_unit), id) });
+            code = cb.map_or(-1, |v| v.code());
+            if code == 0 || code == 3 { return 0; }   // Duplicate: an earlier attempt got through
+            run.feat("retry:busy-setup:insert");
+            std::thread::sleep(Duration::from_millis(25 * (attempt + 1) as u64));
+        }
+        code
     };
     let mode = op["mode"].as_str().unwrap_or("lock");
     let target = op["target"].as_str().unwrap_or("session");
@@ -330,14 +399,27 @@ fn busy(run: &mut Run, i: usize, op: &Value, last: &mut [usize; 3]) -> Value {
     // set-up
     let s0 = start(run, false, last);
     let nrows = if mode == "big" { 120 } else { 3 };
-    for r in 0..nrows { insert(run, s0, &format!("r{}", r), if mode == "big" { 16384 } else { 8 }); }
+    let mut setup_ok = s0 != 0;
+    for r in 0..nrows { setup_ok &= insert(run, s0, &format!("r{}", r), if mode == "big" { 16384 } else { 8 }) == 0; }
     aux(run, i, op, |id| unsafe { askar_session_close(H(s0), 0, Some(cb_unit), id) });
-    let locker = if mode == "lock" { let a = start(run, true, last); insert(run, a, "locked", 8); a } else { 0 };
+    // the write lock is held for certain only when the locking transaction's own insert went through
+    let (locker, lock_held) = if mode == "lock" { let a = start(run, true, last); let ok = a != 0 && insert(run, a, "locked", 8) == 0; (a, ok) } else { (0, false) };
     // the handle under test
     let (hb, is_scan) = if target == "scan" {
-        let (_, cb) = aux(run, i, op, |id| unsafe { askar_scan_start(H(st), std::ptr::null(), std::ptr::null(), std::ptr::null(), 0, -1, std::ptr::null(), 0, Some(cb_handle), id) });
-        (match cb { Some(CbVal::Handle(0, h)) => { last[2] = last[2].max(h); h } _ => 0 }, true)
+        let mut kh = 0;
+        for attempt in 0..=RETRIES {
+            let (_, cb) = aux(run, i, op, |id| unsafe { askar_scan_start(H(st), std::ptr::null(), std::ptr::null(), std::ptr::null(), 0, -1, std::ptr::null(), 0, Some(cb_handle), id) });
+            if let Some(CbVal::Handle(0, h)) = cb { last[2] = last[2].max(h); kh = h; break; }
+            std::thread::sleep(Duration::from_millis(25 * (attempt + 1) as u64));
+        }
+        (kh, true)
     } else { (start(run, target == "session" && op["txn"].as_bool().unwrap_or(false) && mode != "lock", last), false) };
+    if hb == 0 || !setup_ok {
+        run.fail(i, op, "busy:setup-failed".into(), json!({"diag": format!("mode={} target={} store={} handle-under-test={} rows-inserted={}", mode, target, st, hb, setup_ok)}));
+        aux(run, i, op, |id| unsafe { askar_store_close(H(st), Some(cb_unit), id) });
+        current_error();
+        return json!({"busy": null});
+    }
     // in-flight call, then the close, with nothing in between
     let (id1, id2) = (new_cb_id(), new_cb_id());
     let (c, nm) = (cstr_arg(&json!("c")), cstr_arg(&json!("inflight")));
@@ -353,24 +435,30 @@ fn busy(run: &mut Run, i: usize, op: &Value, last: &mut [usize; 3]) -> Value {
     if let Some(CbVal::Ptr(0, p)) = &v1 { if *p != 0 { unsafe { askar_entry_list_free(P(*p as *const u8)) }; } }
     let call = v1.as_ref().map_or("none".to_string(), |v| code_name(v.code()));
     let close = if is_scan { code_name(r2) } else { v2.as_ref().map_or("none".to_string(), |v| code_name(v.code())) };
-    if is_scan { std::thread::sleep(Duration::from_millis(20)); }
-    // a later use of the closed handle
-    let (_, v3) = aux(run, i, op, |id| unsafe { if is_scan { askar_scan_next(H(hb), Some(cb_ptr), id) } else { askar_session_count(H(hb), std::ptr::null(), std::ptr::null(), Some(cb_i64), id) } });
-    let after = v3.as_ref().map_or("none".to_string(), |v| code_name(v.code()));
-    // the oracle's own reading of the property: Busy or Success for the close (nothing else), the handle is dead afterwards,
-    // a Busy close means the in-flight call held the resource, i.e. it ran to its own result (not "invalid handle")
-    if close != "Success" && close != "Busy" { run.fail(i, op, format!("busy:{}:close->{}", target, close), json!({})); }
-    if after == "Success" { run.fail(i, op, format!("busy:{}:handle-usable-after-close", target), json!({"close": close})); }
-    if r1 != 0 || r2 != 0 { run.fail(i, op, format!("busy:{}:entry-returned-error", target), json!({"call": code_name(r1), "close": code_name(r2)})); }
+    // a later use of the closed handle.  `askar_scan_free` has no callback: its task may not have run yet, and until it has
+    // the scan is legitimately usable; the judged fact is that the handle dies (within 5 s), not how fast.
+    let mut after = "none".to_string();
+    let mut polls = 0;
+    for _ in 0..250 {
+        let (_, v3) = aux(run, i, op, |id| unsafe { if is_scan { askar_scan_next(H(hb), Some(cb_ptr), id) } else { askar_session_count(H(hb), std::ptr::null(), std::ptr::null(), Some(cb_i64), id) } });
+        if let Some(CbVal::Ptr(0, p)) = &v3 { if *p != 0 { unsafe { askar_entry_list_free(P(*p as *const u8)) }; } }
+        after = v3.as_ref().map_or("none".to_string(), |v| code_name(v.code()));
+        if !(is_scan && after == "Success") { break; }
+        polls += 1;
+        std::thread::sleep(Duration::from_millis(20));
+    }
+    let diag = format!("mode={} target={} commit={} txn={} lock_held={} entry-returns=(call:{}, close:{}) delivered=(call:{}, close:{}, later-use:{}) polls-after-scan-free={}",
+        mode, target, commit, op["txn"], lock_held, code_name(r1), code_name(r2), call, close, after, polls);
+    // the oracle's own reading of the property: Busy or Success for the close (nothing else), the handle is dead afterwards
+    if close != "Success" && close != "Busy" { run.fail(i, op, format!("busy:{}:close->{}", target, close), json!({"diag": diag, "error": current_error()})); }
+    if after == "Success" { run.fail(i, op, format!("busy:{}:handle-usable-after-close", target), json!({"diag": diag})); }
+    if r1 != 0 || r2 != 0 { run.fail(i, op, format!("busy:{}:entry-returned-error", target), json!({"diag": diag})); }
     // tidy up
     if locker != 0 { aux(run, i, op, |id| unsafe { askar_session_close(H(locker), 0, Some(cb_unit), id) }); }
-    if target != "store" {
-        // was the commit of a Busy close applied?  (it cannot have been: the session was dropped)
-        aux(run, i, op, |id| unsafe { askar_store_close(H(st), Some(cb_unit), id) });
-    }
+    if target != "store" { aux(run, i, op, |id| unsafe { askar_store_close(H(st), Some(cb_unit), id) }); }
     current_error();
     run.feat(&format!("busy:{}:{}:close={}", target, mode, close));
-    run.tw.push((i, json!({"call": call, "close": close, "after": after})));
+    run.tw.push((i, json!({"call": call, "close": close, "after": after, "lock_held": lock_held, "diag": diag})));
     json!({"busy": {"call": call, "close": close, "after": after}})
 }
 
@@ -426,8 +514,11 @@ pub fn logger_child(case: &Value) -> Value {
         }
     }
     leaks.sort_by_key(|l| l.to_string()); leaks.dedup();
-    // clear: no record is delivered afterwards
+    // clear: no record is delivered afterwards.  Let background work of the campaign (sqlx worker threads closing their
+    // connections) finish first: a record whose `enabled` test ran before the clear may still arrive after it.
+    std::thread::sleep(Duration::from_millis(150));
     unsafe { askar_clear_custom_logger() };
+    std::thread::sleep(Duration::from_millis(30));
     let before = LOG_RECORDS.lock().unwrap().len();
     let enabled_before = ENABLED_CALLS.load(AO::SeqCst);
     let mut p: *const c_char = std::ptr::null();
@@ -528,7 +619,7 @@ fn logger_parent(run: &mut Run, i: usize, op: &Value) -> Value {
     use std::io::Write;
     use std::process::{Command, Stdio};
     let exe = std::env::current_exe().expect("current_exe");
-    let mut child = Command::new(exe).args(["exec", "--threads", "1"]).stdin(Stdio::piped()).stdout(Stdio::piped()).stderr(Stdio::null()).spawn().expect("spawn child");
+    let mut child = Command::new(exe).args(["exec", "--threads", "1"]).env("VERIF_SCRATCH", crate::store_case::scratch_dir()).stdin(Stdio::piped()).stdout(Stdio::piped()).stderr(Stdio::null()).spawn().expect("spawn child");
     let mut case = op.clone();
     case["id"] = json!(0); case["kind"] = json!("c19:child"); case["probe"] = json!("logger");
     child.stdin.take().unwrap().write_all(format!("{}\n", case).as_bytes()).ok();
